@@ -207,6 +207,7 @@ def gen_pipeline(rng, local=None):
     return {"stages": stages, "local": (rng.random() < 0.35) if local is None else local, "size": rng.randint(1, 2),
             "maxnodes": rng.choice([0, 1, 2]), "sbatch_fail_stage": rng.choice([0, 0, 0, 1]),
             # stages configured by auto-config commands; one of them (not the first) may fail
+            "resub": rng.random() < 0.3,
             "auto": auto, "autofail": (rng.randint(2, n) if auto and n >= 2 and rng.random() < 0.2 else 0)}
 
 
@@ -261,6 +262,21 @@ def run_pipeline(pscn, seed, debug=False):
             w.ev(e="cmd", pid=0, host="login", argv=["jade", "try-submit-jobs"], nested=False)
             w.spawn(argv=["jade", "try-submit-jobs", sd], host="login")
             w.run(chooser)
+        if pscn.get("resub") and not pscn["local"]:
+            # the user reruns an earlier stage's jobs while the pipeline is further on (here: after its end): when they are
+            # done that stage announces its completion to the pipeline a second time
+            pj = project.read_pipeline(w.out)
+            if pj is not None and pj["stage"] >= 2:
+                sd1 = os.path.join(w.out, "output-stage1")
+                w.ev(e="cmd", pid=0, host="login", argv=["jade", "resubmit-jobs"], nested=False)
+                w.spawn(argv=["jade", "resubmit-jobs", sd1, "--successful"], host="login")
+                w.run(chooser)
+                for _ in range(4):
+                    st1 = project.read_status(sd1)
+                    if st1 is None or st1["complete"]:
+                        break
+                    w.spawn(argv=["jade", "try-submit-jobs", sd1], host="login")
+                    w.run(chooser)
         w.ev(e="end", recoveries=rec, full=True)
     finally:
         w.close()
